@@ -13,6 +13,7 @@
     docacc ttc l r / docaccu ttc x / docres ttc l r res / docresu ttc x res   -> true|false   (Types.Spec)
     classes               -> <n> then …                    (single line) id:kind:ttc:rt;… of Gen.Operators.classes
     comm                  -> names of commClasses / commSites (single line)
+    sigs                  -> Spec.opSpec as <Cls>:<ttc>:<rt>;…  (VTL reference-manual signatures)
     cast a b <val>        -> ok <val> | sem | run | unmodelled       castSpec (documented conversion)
         <val> ::= null | i:<int> | d:<mantissa>:<scale> | b:true|false | s:<hex of utf8 bytes>
     doy y m d             -> <n> | -        dateofdoy y n -> m d | -      leap y -> true|false
@@ -125,6 +126,7 @@ def answer (line : String) : String :=
       | some t, some x, some res => toString (docResultOkUnary t x res) | _, _, _ => bad
   | ["classes"] =>
       ";".intercalate (classes.map (fun c => s!"{c.module}.{c.name}:{c.kind}:{showO c.ttc}:{showO c.rt}:{ops.getD c.opIx ""}"))
+  | ["sigs"] => ";".intercalate (opSpec.map (fun s => s!"{repr s.cls}:{showO s.ttc}:{showO s.rt}"))
   | ["comm"] =>
       ";".intercalate (commClasses.map (fun c => s!"{c.module}.{c.name}")) ++ " | " ++
       ";".intercalate (commSites.map (fun s => s!"{repr s.cls}@{s.func}"))
